@@ -555,6 +555,11 @@ def run_shard(spec_, res):
     if spec_["tier"] == "thorough" and spec_["shard"] == 0:
         from ._repo_suite import ambient_under_repo_tests
         ambient_under_repo_tests(res, PROPERTY, ["index_coherent"])
+    # several threads: some load files (also old-version ones), others attach to their own gapped projects and write note
+    # images with 16-bit module numbers - switching at I/O calls (rvmon.sched)
+    if spec_["shard"] % 2 == 1:
+        from .. import threadtasks
+        threadtasks.run_loads(res, PROPERTY, random.Random(spec_["seed"] + 17), spec_["seed"], spec_["tier"], 8 if spec_["tier"] == "quick" else 60)
     for name, msg in monitors.take_failures():
         res.violation(f"C14:ambient:{name}", msg, {"monitor": name})
     res.count("ambient_invariant_evaluations", monitors.COUNTERS.get("index_coherent.evaluations", 0))
